@@ -20,7 +20,7 @@ HARNESS = ["harness/db/c05_docupdate_test.go"]
 # pass-P predicate -> relaxed predicate (pass C) that must still hold for a failure to be explained by ResurrectNoCas
 EXCUSED_BY_RESURRECT = {"NoLostAck": "X_NoLostAck", "OwnSequence": "X_OwnSequence",
                         "OneChildPerParent": "X_OneChildPerParent", "FeedAnnouncesFinal": "X_FeedAnnouncesFinal"}
-AUX = ("TypeOK", "SeqSane", "NotYetWritten", "CurIsWinner", "AccountedModuloDrop", "DevSane")
+AUX = ("TypeOK", "SeqSane", "NotYetWritten", "CurIsWinner", "SequencesAccounted", "DevSane")
 CHUNK = 450          # behaviours per TLC validation process
 MAX_REPORTS = 4      # replay files written per predicate for unexplained failures
 
@@ -244,7 +244,7 @@ def verdicts(ctx, behs, per, pviol, conf, cdiv, stats):
             b, ln, ": " + json.dumps(slim(per[b][-1])) if per[b][-1]["a"] == "Abort" else ""))
     ctx.cov["nonconformance"] += len(nonconf)
     auxbad = {}
-    devcount, leaks, leaks_unexplained = {}, [], []
+    devcount, leaks = {}, []
     for b, recs in conf.items():
         c = recs[0]
         for d in c["dev"]:
@@ -253,7 +253,7 @@ def verdicts(ctx, behs, per, pviol, conf, cdiv, stats):
             if n in AUX:
                 auxbad.setdefault(n, []).append(b)
         if c["leaked"]:
-            (leaks if set(c["leaked"]) <= set(c["dropped"]) else leaks_unexplained).append(b)
+            leaks.append(b)
     for n, bs in sorted(auxbad.items()):
         ctx.cov["nonconformance"] += len(bs)
         ctx.notes.append("pass C: auxiliary invariant %s fails on the real final state of %d conforming behaviours (e.g. %d)" % (n, len(bs), bs[0]))
@@ -303,17 +303,14 @@ def verdicts(ctx, behs, per, pviol, conf, cdiv, stats):
     ctx.cov["c05"]["pass_p_failing_behaviours"] = len(pviol)
     ctx.cov["c05"]["unexplained_failures"] = {p: len(v) for p, v in unexplained.items()}
 
-    # ---- auxiliary: sequence accounting (C07's "every reserved number is carried by a doc or published as unused"), never a C05 verdict
-    ctx.cov["c05"]["seq_leak_behaviours"] = len(leaks) + len(leaks_unexplained)
+    # ---- auxiliary: sequence accounting (C07's "every reserved number is carried by a doc or published as unused"): evaluated by TLC
+    # on the real allocator / document / unused-sequence docs (Leaked, SequencesAccounted in pass C); never a C05 verdict
+    ctx.cov["c05"]["seq_leak_behaviours"] = len(leaks)
     if leaks:
         b = leaks[0]
-        ctx.notes.append("C07 candidate F2 observed on real code in %d behaviours: a reserved sequence is neither on the document nor released "
-                         "(lost through ErrDropsUnused: documentUpdateFunc error return drops unusedSequences); e.g. behaviour %d leaked %s: %s" % (
-                             len(leaks), b, conf[b][0]["leaked"], json.dumps(behs[b]["steps"])))
-        ctx.sample({"c07_f2_example": behs[b], "leaked": conf[b][0]["leaked"], "real_trace_tail": [slim(r) for r in per[b][-2:]]})
-    if leaks_unexplained:
-        b = leaks_unexplained[0]
-        ctx.notes.append("sequence leak NOT explained by ErrDropsUnused in %d behaviours, e.g. %d leaked %s" % (len(leaks_unexplained), b, conf[b][0]["leaked"]))
+        ctx.notes.append("C07-relevant: in %d behaviours a reserved sequence is neither on the document, nor listed as unused, nor released; "
+                         "e.g. behaviour %d leaked %s: %s" % (len(leaks), b, conf[b][0]["leaked"], json.dumps(behs[b]["steps"])))
+        ctx.sample({"c07_leak_example": behs[b], "leaked": conf[b][0]["leaked"], "real_trace_tail": [slim(r) for r in per[b][-2:]]})
 
 
 def first_line(per, b):
